@@ -335,7 +335,9 @@ def pass23_any_number(c):
 
 WORDS = ["a", "I", "to", "the", "over", "lazy", "quick", "jumps", "captions", "extraordinary", "W" * 33, "x" * 40,
          "She", "sells", "sea", "shells", "down", "by", "shore", "don't", "\"quoted\"", "100%", "a&b", "é", "ñ", "½",
-         "well-documented", "state-of-the-art", "mother-in-law", "re-read", "-", "--", "twenty-one"]
+         "well-documented", "state-of-the-art", "mother-in-law", "re-read", "-", "--", "twenty-one",
+         # (text is text: an ampersand followed by what HTML calls an entity name stays as it is; captions of punctuation only)
+         "Q&notes", "R&regional", "&amp", "&lt;b&gt;", "&#65;", "AT&T;", "...", "?!"]
 
 
 def make_text(rng):
@@ -460,7 +462,7 @@ def shared(cls, **kw):
 def bounded(ctx, b):
     rng = random.Random(ctx.seed)
     n = 120 if not ctx.thorough else 2000
-    crafted = [["She sells sea shells down by the sea shore"], ["W" * 40], ["x" * 32], ["a b"], ["one", "two", "three", "four"],
+    crafted = [["..."], ["?!"], ["- -", "$%"], ["Send your Q&notes to R&regional &amp now"], ["She sells sea shells down by the sea shore"], ["W" * 40], ["x" * 32], ["a b"], ["one", "two", "three", "four"],
                # one source line that needs five (and eight) rows of 32 columns
                ["aaaaaaaaaaaa bbbbbbbbbbbbbbbbbbbb cccccccccccc dddddddddddddddddddd eeeeeeeeeeee"],
                [" ".join(ch * 17 for ch in "abcdefgh")], ["x" * 32 + " " + "y" * 32, "z" * 70],
